@@ -6,9 +6,9 @@ Ties (all run on every check):
                             sweep-only on the implementation's own match spans), BaseGUIDExtractor.extract,
                             GUIDParser.score_guid;
   * pipeline oracles      — recognize_ip_address / recognize_guid against Python's `ipaddress` / `uuid` modules
-                            (independent of model and regexes): completeness + exact span for delimited valid tokens,
-                            soundness (whatever is reported is valid and its resolved value denotes the same address) on
-                            everything incl. near misses;
+                            (independent of model and regexes): completeness + exact span for delimited valid tokens;
+                            soundness on EVERYTHING reported, near misses included (see `ip_entity_problems` /
+                            `guid_entity_problems` for what exactly is demanded and why);
   * correspondence only   — grammar-generated e-mail / URL / hashtag / mention / phone strings through recognize_*: one
                             entity, value == text == generated string (their regexes are outside the translator).
 """
@@ -21,7 +21,7 @@ from lib.common import cps
 
 PROP = 'C13'
 LEVEL = 'proof'
-PROPS_MODULES = ['RTV.Props.C13']
+PROPS_MODULES = ['RTV.Props.C13', 'RTV.Props.C13Extract', 'RTV.Lemmas.ReNullable']
 GEN = ['chartables', 'regexes', 'tlds', 'preprocess', 'emojitable', 'urlgrammar', 'pytables']
 REQUIRED_THEOREMS = ['octet_lang', 'ipv4_lang', 'ipv4_sound', 'prefix_ipv4_unsound_unicode_digits',
                      'ipv4_rejects_unicode_digit_witness', 'ipv4_complete_unique', 'ipv4_reported_span',
@@ -31,7 +31,14 @@ REQUIRED_THEOREMS = ['octet_lang', 'ipv4_lang', 'ipv4_sound', 'prefix_ipv4_unsou
                      'ipv6_sound', 'ipv6_complete', 'drop_zeros_group_value', 'hashtag_lang',
                      'hashtag_reported_span', 'mention_lang', 'mention_unique', 'mention_reported_span',
                      'real_tagchars_are_word', 'email_lang', 'url_reported_valid', 'url_grammar_recognised',
-                     'url_family_size', 'phone_post_span', 'phone_kept_prefix', 'phone_extract_spec', 'ends_inside_text']
+                     'url_family_size', 'phone_post_span', 'phone_kept_prefix', 'phone_extract_spec', 'ends_inside_text',
+                     'guid_reported_span', 'guid_reported_span_braced',
+                     # Props/C13Extract.lean: what BaseIpExtractor.extract reports (audit item 19)
+                     'ipExtract_reports', 'ipv4_extract_complete', 'ipv4_token_reported', 'ipv6_reported_span',
+                     'ipv6_extract_complete', 'ip_extract_reports_valid', 'ipv4_dotted_run_reports_prefix',
+                     'longer_dotted_run_invalid', 'dotted_run_witness', 'real_tablesOk', 'real_noSpace', 'real_seps',
+                     # Lemmas/ReNullable.lean (audit item 34): the model's findAll is the libraries' finditer on every translated pattern
+                     'translated_findAll_is_finditer', 'findAll_eq_findAllPy', 'ends_progress']
 RULE = ('regex correspondence: per translated pattern, strings sampled from the pattern, mutated, embedded in contexts '
         'built from the pattern\'s own class boundaries; unit: drop_leading_zeros / extractors / score_guid on IP- and '
         'GUID-shaped strings with ellipsis boundary contexts; pipeline: boundary octets {0,9,10,99,100,199,200,249,250,255}^4 '
@@ -75,6 +82,116 @@ def v6_value(text):
 
 def ip_value(text):
     return v4_value(text) if '.' in text else v6_value(text)
+
+
+ASCII_ALNUM = set('0123456789abcdefghijklmnopqrstuvwxyzABCDEFGHIJKLMNOPQRSTUVWXYZ')
+V4_CHARS = set('0123456789.')
+V6_CHARS = set('0123456789abcdefABCDEF:')
+
+
+def ip_unglued(q, a, b):
+    return not ((a > 0 and q[a - 1] in ASCII_ALNUM) or (b < len(q) and q[b] in ASCII_ALNUM))
+
+
+def ip_entity_problems(q, a, b):
+    """What the property's soundness clause ("anything reported as an IP address is a valid address") demands of ONE
+    reported entity with span q[a:b], decided as follows (audit item 19).  A *candidate* is a span that is
+
+      valid     a valid address for the stdlib `ipaddress` module (dotted quad of 1-3 digit octets <= 255, or an RFC 4291
+                hex form, exploded or compressed), and
+      unglued   neither neighbour is an ASCII letter or digit: otherwise the text is a fragment of a longer alphanumeric
+                run (`234.1.2.3` out of `1234.1.2.3`, `::1` out of `x::1`), not an address "standing as its own token".
+                Non-ASCII letters are not counted (the Chinese configuration treats CJK neighbours as delimiters on
+                purpose) and `_` is not counted.
+
+    Every reported entity must be a candidate, and must not be a truncation of the address that stands there:
+
+      right-maximal   no candidate [a, y) with y > b (`1::2` out of `1::2:3`, `1.2.3.4` out of `1.2.3.45`);
+      whole-token     if the maximal run of address characters around [a, b) (digits and `.`, or hex digits and `:`) is
+                      itself a candidate, the entity is that run (`2::3` out of `1:2::3` is a truncation).
+
+    A longer dotted / colon run that is NOT a valid address as a whole (`0.1.2.3.4`, `1::2:3:4:5:6:7:8`) is outside the
+    completeness clause (it is not a valid address token), and the soundness clause does not forbid reporting a
+    right-maximal candidate inside it that is delimited by `.` / `:` — `0.1.2.3` out of `0.1.2.3.4` IS a valid address
+    (Lean: `ipv4_dotted_run_reports_prefix`).  Such reports pass; reporting the whole run, a truncation or a glued
+    fragment does not.  -> list of (signature suffix, explanation)"""
+    out = []
+    txt = q[a:b]
+    if ip_value(txt) is None:
+        return [('unsound', 'is not a valid IP address')]
+    if not ip_unglued(q, a, b):
+        out.append(('glued', 'is glued to an ASCII letter / digit (%r)' % q[max(a - 1, 0):b + 1]))
+    chars = V4_CHARS if '.' in txt else V6_CHARS
+    lo = a
+    while lo > 0 and q[lo - 1] in chars:
+        lo -= 1
+    hi = b
+    while hi < len(q) and q[hi] in chars:
+        hi += 1
+    longer = [y for y in range(b + 1, hi + 1) if ip_value(q[a:y]) is not None and ip_unglued(q, a, y)]
+    if longer:
+        out.append(('not-maximal', 'is a truncation of the valid address %r at [%d,%d)' % (q[a:longer[-1]], a, longer[-1])))
+    elif (lo, hi) != (a, b) and ip_value(q[lo:hi]) is not None and ip_unglued(q, lo, hi):
+        out.append(('not-maximal', 'is a truncation of the valid address token %r at [%d,%d)' % (q[lo:hi], lo, hi)))
+    return out
+
+
+def glued_kind(q, a, b):
+    """sub-signature of a glued report: which mechanism of the code let it through ('' = none of the recorded ones)"""
+    before = q[a - 1] if a > 0 else ''
+    after = q[b] if b < len(q) else ''
+    if q[a:b].endswith('::') and after in ASCII_ALNUM and not after.isdigit() and '\u0800' <= before <= '\u9fff':
+        # BaseIpExtractor.extract: the guard for a match ending in `::` asks is_cjk(source[start - 1]) instead of
+        # is_cjk(source[i + 1]); reachable where a match may start right after a CJK character (Chinese configuration)
+        return ':ellipsis-end-after-cjk'
+    if (before in 'Kk' or after in 'Kk') and all(c not in ASCII_ALNUM for c in (before.strip('Kk') + after.strip('Kk'))):
+        # ChinesePhoneNumbers.*WordBoundariesRegex: `[\u0800-\u9FFF]` is compiled with IGNORECASE and contains U+212A
+        # KELVIN SIGN, whose case folding is `k`
+        return ':latin-k'
+    return ''
+
+
+# -- GUIDs: what a reported entity must be.  The property names four layouts (plain, braced, upper-case, undashed); the
+# resource (`BaseGUID.GUIDRegex`) documents three more wrappers (`urn:uuid:`, URL-encoded braces `%7b…%7d`, `x'…'`).
+# `uuid.UUID()` alone is NOT an oracle for the shape: it strips braces / `urn:uuid:` itself and ignores where (and
+# whether) the dashes stand (`0123456789ab-cdef-…`, `{0123…` both parse), so the shape is checked here, independently
+# of the code's regex, and `uuid.UUID` only compares the 128-bit values.
+import re as _stdre
+_CORE = r'(?:[0-9a-f]{8}-[0-9a-f]{4}-[0-9a-f]{4}-[0-9a-f]{4}-[0-9a-f]{12}|[0-9a-f]{32})'
+GUID_SHAPES = [('plain', _stdre.compile('(' + _CORE + ')')), ('braced', _stdre.compile(r'\{(' + _CORE + r')\}')),
+               ('urn', _stdre.compile('urn:uuid:(' + _CORE + ')')), ('urlbraced', _stdre.compile('%7b(' + _CORE + ')%7d')),
+               ('xquoted', _stdre.compile("x'(" + _CORE + ")'"))]
+
+
+def guid_shape(text):
+    """-> (layout, core) when `text` (lower case) is EXACTLY one GUID in one of the layouts, else None"""
+    for name, rx in GUID_SHAPES:
+        m = rx.fullmatch(text)
+        if m:
+            return name, m.group(1)
+    return None
+
+
+def guid_entity_problems(q, x):
+    """Demands on ONE entity of recognize_guid(q): exact span (text == value == the lower-cased query slice), the text is
+    exactly one well-formed GUID (strict dash positions, balanced wrapper), and a GUID reported without a wrapper is not
+    a fragment of a longer ASCII alphanumeric run (`…cdef0` / `x0123…`).  -> list of (signature, explanation)"""
+    out = []
+    txt = x.text
+    val = x.resolution.get('value')
+    if q[x.start:x.end + 1].lower() != txt or val != txt:
+        out.append(('guid-span-text', 'text %r / value %r are not the (lower-cased) query slice [%d,%d] %r' % (
+            txt, val, x.start, x.end, q[x.start:x.end + 1])))
+    sh = guid_shape(txt)
+    if sh is None:
+        out.append(('guid-unsound', 'text %r is not a well-formed GUID in any layout' % txt))
+        return out
+    a, b = x.start, x.end + 1
+    if sh[0] in ('plain', 'urn') and b < len(q) and q[b] in ASCII_ALNUM:
+        out.append(('guid-glued', '%r is followed by %r' % (txt, q[b])))
+    if sh[0] == 'plain' and a > 0 and q[a - 1] in ASCII_ALNUM:
+        out.append(('guid-glued', '%r is preceded by %r' % (txt, q[a - 1])))
+    return out
 
 
 def fmt_model_results(rs):
@@ -206,6 +323,12 @@ def check_ip_results(ctx, q, rs, expect=None, family='', culture=CULTURE):
             ctx.report('property', pre + sig, 'recognize_ip_address(%r, %r) reports %r, which is not a valid IP address' % (q, culture, txt),
                        failing_input=fi, property_fails=True)
             continue
+        if q[r.start:r.end + 1] == txt:
+            for suffix, why in ip_entity_problems(q, r.start, r.end + 1):
+                if suffix == 'glued':
+                    suffix += glued_kind(q, r.start, r.end + 1)
+                ctx.report('property', pre + 'ip-' + suffix, 'recognize_ip_address(%r, %r) reports %r at [%d,%d], which %s' % (
+                    q, culture, txt, r.start, r.end, why), failing_input=fi, property_fails=True)
         try:
             vaddr = ipaddress.ip_address(val)
         except ValueError:
@@ -365,6 +488,28 @@ def pipeline_ip(ctx, impl):
         near.append(':'.join(g[:p]) + '::' + ':'.join(g[p:]) + '::' + '1')
         near.append(':'.join(r.choice(['12345', 'g', '1g', 'fffff', '0']) for _ in range(8)))
         near.append(''.join(r.choice('0123456789abcdefg.:: x') for _ in range(r.randint(1, 30))))
+    # longer dotted / colon runs of VALID groups (the whole run is not an address; a maximal valid address inside it that
+    # is delimited by `.` / `:` may be reported, the whole run / a truncation / a glued fragment may not), and groups
+    # glued to further digits / letters
+    for n in (5, 6, 7, 8, 9):
+        for _ in range(12 if ctx.thorough else 4):
+            near.append('.'.join(str(r.choice(BOUNDARY + [1, 25])) for _ in range(n)))
+    for n in (9, 10, 12):
+        near.append(':'.join(r.choice(HEX_POOL) for _ in range(n)))
+    for a in range(8):
+        near.append(v6_split(a, 8 - a, r))
+        near.append('see ' + v6_split(a, 8 - a, r) + ' ok')
+    for _ in range(60 if ctx.thorough else 20):
+        quad = [str(r.choice(BOUNDARY + [1, 25])) for _ in range(4)]
+        t = '.'.join(quad)
+        g = r.choice(['1', '12', '0', 'a', 'Z', 'x9'])
+        near += [g + t, t + g, t + '.' + g + t, 'v' + t + ' ' + t + 'b', t + '-' + t, t + '/' + g, t + ':' + g + '::', '::' + t]
+        h = v6_split(r.randint(0, 3), r.randint(0, 3), r)
+        near += [g + h, h + g, 'x' + h, h + 'x', h + '.' + g, g + '.' + h, h + ' ' + h]
+    near += ['0.1.2.3.4', '9.0.1.2.3.4', 'at 0.1.2.3.4.', '1.2.3.45', '11.2.3.4', '1234.1.2.3', '1.2.3.1234', '1.2.3.4.5.6.7.8',
+             '1::2:3:4:5:6:7:8', '::1:2:3:4:5:6:7:8', '1:2:3:4:5:6:7:8::', '12345::1', '1::12345', '_::1', '::1_', '1.2.3.4_',
+             '²::1', '::1²', '1::²', '1.2.3.4:5::', '::1.2.3.4', '1.2.3.4::1', '1.2.3.4::', '1::2:3', 'a 1::2:3 b',
+             '。1:2:3:4:5:6:7::x', '1:::2', '1::2::3']
     near += ['1.2.3.٤', '١.٢.٣.٤', '1.2.3.４', 'x::1', '1::x', 'x::', '::x', '中::1', '1::中', '9::', '::9', 'a::b', '::', ' :: ',
              'a::', ':::', '1.2.3', '1.2.3.4.5', '01.02.03.004', '1.2.3.4/24', 'v1.2.3.4', '1.2.3.4a', '::٤', '٤::1',
              'fe80::1%eth0', '1:2:3:4:5:6:7:8:9', '::ffff:1.2.3.4']
@@ -378,7 +523,10 @@ def pipeline_ip(ctx, impl):
 ZH_CARRIERS = ['{}', '我电脑IP是{}', '地址 {} 。', '({})', 'IP是{}，好', ' {} ']
 ZH_V6_CARRIERS = ['{}', '我电脑IP是{} ', '地址 {} 。', '({})']
 ZH_PROBES = ['1.2.3.٤', '我电脑IP是1.2.3.٤', '1.2.3.４', '١.٢.٣.٤', '::٤', '我::1', '1::我', '256.1.1.1', '我电脑IP是1.1.1.256',
-             '我电脑IP是1.2.3.4.5', '错误的IPV6地址JKLN:ssej::1', 'K1.2.3.4', '1.2.3.4K']
+             '我电脑IP是1.2.3.4.5', '错误的IPV6地址JKLN:ssej::1', 'K1.2.3.4', '1.2.3.4K', 'k1.2.3.4', 'j1.2.3.4', '1.2.3.4j',
+             # a match ending in `::` glued to a following letter: rejected after a blank, let through after a CJK character
+             # (finding zh-ip-glued:ellipsis-end-after-cjk), rejected when a digit follows
+             '是1:2:3:4:5:6:7::x', ' 1:2:3:4:5:6:7::x', '是1:2:3:4:5:6:7::9', '是1::x', '是::1', '1::是', '是1.2.3.4.5', '0.1.2.3.4']
 
 
 def pipeline_ip_zh(ctx, impl):
@@ -438,17 +586,19 @@ def pipeline_guid(ctx, impl):
                 continue
             ctx.nontriv(('guid', q))
             x = hit[0]
-            try:
-                same = uuid.UUID(x.text) == u and uuid.UUID(x.resolution.get('value')) == u
-            except ValueError:
-                same = False
+            for sig, why in guid_entity_problems(q, x):
+                ctx.report('property', sig, 'recognize_guid(%r): %s' % (q, why), failing_input=fi, property_fails=True)
+            sh = guid_shape(x.text)
+            same = sh is not None and uuid.UUID(sh[1]) == u and x.resolution.get('value') == x.text
             if not same:
                 ctx.report('property', 'guid-value', 'recognize_guid(%r): text %r / value %r do not denote %s' % (
                     q, x.text, x.resolution.get('value'), u), failing_input=fi, property_fails=True)
             if k < 200:
                 texts.append(x.text)
     ctx.count('pipeline-guid', n)
-    # near misses: whatever is reported must parse as a UUID
+    # near misses: only soundness is demanded, but strictly (`guid_entity_problems`): every reported entity is exactly
+    # one well-formed GUID with its exact span; in particular nothing at all may be reported where no well-formed GUID
+    # stands
     near = []
     for _ in range(1500 if ctx.thorough else 300):
         t = str(uuid.UUID(int=r.getrandbits(128)))
@@ -458,14 +608,19 @@ def pipeline_guid(ctx, impl):
         near.append(t + r.choice('0af'))
         near.append('{' + t)
         near.append(t.replace('-', '', r.randint(1, 3)))
+        k = r.randrange(8)
+        h = t.replace('-', '')
+        near.append([t + '}', '%7b' + t, t + '%7d', "x'" + t, t + "'", 'urn:uuid:' + t[:-1], 'urn:uuid:' + t + 'f', 'xurn:uuid:' + t][k])
+        near.append([h[:7] + '-' + h[7:12] + '-' + h[12:16] + '-' + h[16:20] + '-' + h[20:],      # 7-5-4-4-12
+                     h[:8] + '-' + h[8:12] + '-' + h[12:16] + '-' + h[16:], h + h, t + t, t + '-' + t, t.upper()[:18] + ' ' + t[19:],
+                     '{' + h[:31] + '}', '{' + t + t + '}'][k])
+        near.append(r.choice(['id=', 'x', '0', '_', '#', '/']) + t + r.choice(['', '.', 'x', '0', '_', '/1']))
     for q in near:
-        for x in impl.guid(q):
-            core = x.text
-            try:
-                uuid.UUID(core)
-            except ValueError:
-                ctx.report('property', 'guid-unsound', 'recognize_guid(%r) reports %r, which is not a GUID' % (q, core),
-                           failing_input={'op': 'recognize_guid', 'query': q, 'reported': fmt_model_results(impl.guid(q))},
+        rs = impl.guid(q)
+        for x in rs:
+            for sig, why in guid_entity_problems(q, x):
+                ctx.report('property', sig, 'recognize_guid(%r) reports [%d,%d] %r: %s' % (q, x.start, x.end, x.text, why),
+                           failing_input={'op': 'recognize_guid', 'query': q, 'culture': CULTURE, 'reported': fmt_model_results(rs)},
                            property_fails=True)
     ctx.count('pipeline-guid-near-miss', len(near))
     return texts, near
